@@ -608,6 +608,15 @@ func execDraw(line string) (res h.Result) {
 				sh.allowed[k] = map[int]bool{}
 			}
 			sh.allowed[k][block] = true
+			// a column that may be written is written by writing the glyph it shows: when that is a wide rune, both of its
+			// columns (a wide rune at x+1 laid bare by a change of the hidden wide rune at x is repainted whole)
+			if k[0]+1 < sh.w && widthOf(get(k[0], k[1]).main) > 1 {
+				r := [2]int{k[0] + 1, k[1]}
+				if sh.allowed[r] == nil {
+					sh.allowed[r] = map[int]bool{}
+				}
+				sh.allowed[r][block] = true
+			}
 		}
 		sh.changed = map[[2]int]bool{}
 	}
